@@ -280,7 +280,16 @@ class StoreRun:
                 self.sim.drain()
             except Exception:
                 pass
-            seams.SIMLOCK.reset()
+            # An operation that failed with an ordinary exception (F1/F2/F4/F6) leaves the
+            # process alive: a lock it leaked stays held for whatever the process does next.
+            # Only an interrupt/kill (F3), a success or a scheduling verdict resets the lock.
+            leak_matters = (exc is not None and fault is not None and
+                            fault.get("kind") in ("F1", "F2", "F4", "F6") and
+                            exc[0] not in ("SimDeadlock", "StepLimit"))
+            if seams.SIMLOCK.owner is not None:
+                self.stat("lock-held-after-op")
+            if not leak_matters:
+                seams.SIMLOCK.reset()
         sys.last_traceback = None
         sys.last_value = None
         gc.collect()
@@ -1285,7 +1294,12 @@ def _op_coarsen(self, op):
         self.violate(op.get("prop", "C08"), "O-sched-flock",
                      ["simulated HDF5 file-lock conflict: %r" % (self.sim.flock_conflicts[nconf0],)])
     if exc is not None and exc[0] in ("SimDeadlock", "StepLimit"):
-        self.violate(op.get("prop", "C08"), "O-sched-deadlock", ["%s: %s" % exc])
+        if op.get("reissue"):
+            self.violate("C13", "O-reissue-deadlock", ["re-issuing the operation after its injected failure "
+                                                        "deadlocks (a lock was leaked): %s" % exc[1][:200]])
+        else:
+            self.violate(op.get("prop", "C08"), "O-sched-deadlock", ["%s: %s" % exc])
+        seams.SIMLOCK.reset()
     self.sim.deadlock = None
     if exc is None and exp is not None and nproc > 1:
         self.stat("pooled-coarsen-ok")
